@@ -575,10 +575,11 @@ pub fn net_oracles_learn(ctx: &mut Ctx, spec: &NetSpec, net: &Network, job: &Lea
             }
         }
     }
-    if is(ctx, &["C09", "C10", "C04", "C13"]) {
-        // after training returns every dropout flag is off
+    if is(ctx, &["C09", "C10", "C04", "C13", "C01", "C02"]) {
+        // after training returns every dropout flag is off (gradients and predictions asked for afterwards are those of
+        // the layers' defining operators only then)
         let flags = net::flags_of(net);
-        if is(ctx, &["C09"]) {
+        if is(ctx, &["C09", "C01", "C02"]) {
             ctx.oracle(flags.iter().all(|f| !*f), "flags-after-learn", "after training returns the network must predict like one without dropout (all flags off)",
                 desc.clone(), format!("{:?}", flags), "all false".into());
         }
@@ -642,6 +643,8 @@ pub fn learn_spec(spec: &NetSpec, job: &LearnJob) -> Option<(Vec<f32>, Vec<Vec<f
     net::set_all_training(&mut twin, true);
     let r = net::try_run(|| {
         let mut train_loss = Vec::new();
+        for _phase in 0..job.phases.max(1) {
+        train_loss.clear();
         for epoch in 1..=job.epochs {
             let mut loss_epoch = 0.0f32;
             let mut groups = 0;
@@ -675,6 +678,7 @@ pub fn learn_spec(spec: &NetSpec, job: &LearnJob) -> Option<(Vec<f32>, Vec<Vec<f
                 i = end;
             }
             train_loss.push(loss_epoch / groups as f32);
+        }
         }
         train_loss
     }).ok()?;
@@ -721,6 +725,7 @@ pub fn learn_spec_independent(spec: &NetSpec, job: &LearnJob) -> Option<(Vec<Vec
         let mut w: Vec<Vec<Vec<f64>>> = twin.layers.iter().map(|l| layer_params(l).into_iter().map(|v| v.into_iter().map(|x| x as f64).collect()).collect()).collect();
         let mut st: Vec<Vec<Vec<[f64; 3]>>> = w.iter().map(|l| l.iter().map(|t| vec![[0.0; 3]; t.len()]).collect()).collect();
         let mut well = true;
+        for _phase in 0..job.phases.max(1) {
         for epoch in 1..=job.epochs {
             let mut i = 0;
             while i < job.xs.len() {
@@ -766,6 +771,7 @@ pub fn learn_spec_independent(spec: &NetSpec, job: &LearnJob) -> Option<(Vec<Vec
                 }
                 i = end;
             }
+        }
         }
         (net_params(&twin), well)
     }).ok()
@@ -858,7 +864,7 @@ pub fn direct_c05(ctx: &mut Ctx) {
                 net::try_run(|| {
                     let mut n = net::build(spec).unwrap();
                     let job = LearnJob { xs: xs[..xs.len().min(24)].to_vec(), ts: ts[..ts.len().min(24)].to_vec(),
-                        val: Some((xs.clone(), ts.clone(), 5)), batch: 5, epochs: 2, script: vec![], print: None };
+                        val: Some((xs.clone(), ts.clone(), 5)), batch: 5, epochs: 2, script: vec![], print: None, phases: 1 };
                     let (tl, vl, va) = net::run_learn(&mut n, &job).unwrap();
                     let xr: Vec<&Tensor> = xs.iter().collect();
                     let tr: Vec<&Tensor> = ts.iter().collect();
